@@ -107,11 +107,12 @@ FactoryCT(fac, f) ==
       [] fac \in {"proxy_wrapper", "masked_value"}                 -> {Deduced(f)}   \* the deduced argument itself
       (* accessors of a two-component wrapper whose closure is ClosureType(Deduced(f)):          *)
       (* on an lvalue wrapper always a reference to the stored/aliased object;                    *)
-      (* on an rvalue wrapper a reference for reference closures, a value (or an rvalue           *)
-      (* reference to the stored object) for value closures                                       *)
+      (* on an rvalue wrapper a reference for reference closures and a VALUE for value closures:   *)
+      (* the wrapper is about to die, and what it owned "stays valid after the temporary is gone"  *)
+      (* only if it is handed out by value (auto&& r = closure(make()).get(); must not dangle)     *)
       [] fac = "lvalue_accessor"  -> {LRef(ct) : ct \in ClosureType(Deduced(f))}
       [] fac = "rvalue_accessor"  -> UNION {IF ct.ref = "lref" THEN {ct}
-                                            ELSE {Decay(ct), ct, [ct EXCEPT !.ref = "rref"], [Decay(ct) EXCEPT !.ref = "rref"]}
+                                            ELSE {Decay(ct), ct}
                                             : ct \in ClosureType(Deduced(f))}
       (* a closure pointer p made from source form f: *p and *(p.operator->()) are the designated object;       *)
       (* &w for a closure wrapper w made from f is pointer-like: *(&w) is the designated object.  The row      *)
